@@ -27,7 +27,7 @@ ParamPoints(cls) ==
                 "LipschitzStronglyMonotoneOperator", "SymmetricLinearOperator"} ->
           << <<H, One>>, <<Q, Two>>, <<Z, One>> >>
     [] cls = "SmoothConvexLipschitzFunction" -> << <<One, One>>, <<Two, H>>, <<H, Two>> >>
-    [] cls \in {"ConvexIndicatorFunction", "ConvexSupportFunction"} -> << <<One>>, <<Inf>>, <<Two>> >>
+    [] cls \in {"ConvexIndicatorFunction", "ConvexSupportFunction"} -> << <<Two>>, <<Inf>>, <<H>> >>
     [] cls = "BlockSmoothConvexFunction" -> << <<One, Two>>, <<Two, RI(4)>>, <<H, One>> >>
     [] cls \in {"CocoerciveOperator", "NegativelyComonotoneOperator"} -> << <<One>>, <<H>>, <<Two>> >>
     [] cls = "CocoerciveStronglyMonotoneOperator" -> << <<H, One>>, <<Q, H>>, <<Z, One>> >>
